@@ -555,6 +555,8 @@ pub fn run_c19(ctx: &mut Ctx) -> (String, Value, Vec<String>) {
     // exact curves that are not sporadic: periodic, auto-extrapolating super-additive prefixes
     for c in &cl {
         per.push((ArrSpec::Periodic { t: 4 }, *c));
+        per.push((ArrSpec::Never, *c));
+        per.push((ArrSpec::Prefix { horizon: 8, steps: vec![(1, 1), (3, 2), (7, 3)] }, *c));
         per.push((ArrSpec::ExtCurve { dmin: vec![0, 4] }, *c));
         per.push((ArrSpec::ExtCurve { dmin: vec![1, 3, 7] }, *c));
         if !quick {
@@ -594,8 +596,11 @@ pub fn run_c19(ctx: &mut Ctx) -> (String, Value, Vec<String>) {
                 let e: Vec<_> = (0..2).map(|i| catch(|| run_uni(&UniCase { ana: Ana::EdfNp, tasks: tasks.clone(), tua: i, blocking: 0, limit }))).collect();
                 n.fetch_add(1, Ordering::Relaxed);
                 if let (Ok(f), Ok(e0), Ok(e1)) = (&fifo, &e[0], &e[1]) {
+                    // the bound of a task that never releases a job is vacuous: the maximum
+                    // ranges over the tasks that have jobs
+                    let live = [a.0.eta(LIMIT) > 0, b.0.eta(LIMIT) > 0];
                     let edf_max = match (e0.ok(), e1.ok()) {
-                        (Some(x), Some(y)) => Some(x.max(y)),
+                        (Some(x), Some(y)) => Some((if live[0] { x } else { 0 }).max(if live[1] { y } else { 0 })),
                         _ => None,
                     };
                     if f.ok() != edf_max {
